@@ -196,9 +196,17 @@ func genHLSCase(t *rapid.T) *caseSpec {
 	rate := uint64(aacRates[idx])
 	c.Muxer = pick(t, "path", "packetizers", "muxer", "packetizers") == "muxer"
 
-	base := rapid.Uint64Range(0, 1<<20).Draw(t, "base")
-	if rapid.IntRange(0, 4).Draw(t, "base-kind") == 0 {
-		base = rapid.Uint64Range(0, maxTS-90000*30).Draw(t, "base-any")
+	// ipchub's depacketizers stamp the first frame half a second after zero; a
+	// source that starts within 100 ms of zero is pulled onto the estimator's
+	// initial base 0 for good, so it gets the loose rule.
+	var base uint64
+	switch pick(t, "base-kind", "usual", "usual", "any", "usual", "within-100ms-of-zero") {
+	case "usual":
+		base = rapid.Uint64Range(9001, 1<<20).Draw(t, "base")
+	case "any":
+		base = rapid.Uint64Range(9001, maxTS-90000*30).Draw(t, "base-any")
+	default:
+		base = rapid.Uint64Range(0, 9000).Draw(t, "base-early")
 	}
 	fps := uint64(rapid.SampledFrom([]int{25, 10, 30, 15}).Draw(t, "fps"))
 	gop := rapid.IntRange(3, 20).Draw(t, "gop")
@@ -208,11 +216,11 @@ func genHLSCase(t *rapid.T) *caseSpec {
 		audioOnlyTicks = uint64(rapid.IntRange(150, 260).Draw(t, "audio-only-centiseconds")) * 900
 	}
 	dropEvery := 0 // drop single audio frames: the generator extrapolates across the gap
-	if rapid.Bool().Draw(t, "drop-audio") {
+	if pick(t, "drop-audio", "no", "no", "yes", "no") == "yes" {
 		dropEvery = rapid.IntRange(3, 17).Draw(t, "drop-every")
 	}
 	gapAt, gapLen := -1, 0 // a hole longer than 100 ms
-	if rapid.Bool().Draw(t, "audio-gap") {
+	if pick(t, "audio-gap", "no", "no", "yes", "no") == "yes" {
 		gapAt = rapid.IntRange(2, 60).Draw(t, "gap-at")
 		gapLen = rapid.IntRange(1, 30).Draw(t, "gap-frames")
 	}
@@ -243,6 +251,7 @@ func genHLSCase(t *rapid.T) *caseSpec {
 		return n
 	}
 
+	c.ExactAudio = dropEvery == 0 && gapAt < 0 && base > hlsAudioSync
 	vn, an, keys := 0, 0, 0
 	for {
 		vPTS := base + uint64(vn)*90000/fps
@@ -292,18 +301,24 @@ func genHLSCase(t *rapid.T) *caseSpec {
 	// whichever segment is open when the second arrives (the audio frame may have
 	// cut one at its own stamp) becomes long enough - a segment's duration is
 	// taken from the frame written last - to be closed by the hidden key frame.
+	c.Frames = append(c.Frames, hlsEnding(c.Frames, rnd)...)
+	return c
+}
+
+// hlsEnding returns the three frames that end every HLS case (see genHLSCase).
+func hlsEnding(frames []frameSpec, rnd func() uint32) []frameSpec {
 	var latest uint64
-	for _, f := range c.Frames {
+	for _, f := range frames {
 		if f.PTS > latest {
 			latest = f.PTS
 		}
 	}
 	end := latest + 180000
-	c.Frames = append(c.Frames,
-		frameSpec{Audio: true, Size: 33, Seed: rnd(), PTS: end, DTS: end, Tail: true},
-		frameSpec{Hdr: 0x41, Size: 60, Seed: rnd(), PTS: end, DTS: end},
-		frameSpec{Hdr: 0x41, Size: 61, Seed: rnd(), PTS: end + 180000, DTS: end + 180000})
-	return c
+	return []frameSpec{
+		{Audio: true, Size: 33, Seed: rnd(), PTS: end, DTS: end, Tail: true},
+		{Hdr: 0x41, Size: 60, Seed: rnd(), PTS: end, DTS: end},
+		{Hdr: 0x41, Size: 61, Seed: rnd(), PTS: end + 180000, DTS: end + 180000},
+	}
 }
 
 // checkHLS runs one case through the HLS consumer and judges the finished segments.
@@ -338,7 +353,7 @@ func checkHLS(t TB, c *caseSpec, test string) *stats {
 // bytes of the segments hls.SegmentGenerator finishes.
 func TestThroughHLS(t *testing.T) {
 	evid.Rule(ruleText)
-	evid.Rule("HLS route: realistic timelines (video 10-30 fps with GOPs, AAC at 8-96 kHz with frames of different sizes, dropped frames, gaps, audio-only tails, in-band parameter sets) go through packetizers or Muxer -> hls.SegmentGenerator (memory, 1 s fragments); every finished segment is demultiplexed on its own and the PES of all segments together must account for the source frames: video as on the direct route, audio PES = chain of ADTS frames equal to the source AAC frames in order (batches cut by the 100 ms rule, by the key frame that starts a segment and by the audio-only segment cut); a recording FrameWriter in front of every consumer checks that frames handed over are not modified afterwards")
+	evid.Rule("HLS route: realistic timelines (video 10-30 fps with GOPs, AAC at 8-96 kHz with frames of different sizes, dropped frames, gaps, audio-only tails, in-band parameter sets) go through packetizers or Muxer -> hls.SegmentGenerator (memory, 1 s fragments); every finished segment is demultiplexed on its own and the PES of all segments together must account for the source frames: video as on the direct route, audio PES = chain of ADTS frames equal to the source AAC frames in order (batches cut by the 100 ms rule, by the key frame that starts a segment and by the audio-only segment cut); the PTS of an audio PES must equal the supplied stamp of its first frame to within 2 ticks over the whole history when the source's audio stamps are sample-exact and gapless and start more than 100 ms after zero (also over histories of 3200 / thorough 16000 AAC frames at 7.35-88.2 kHz), and to within the generator's 100 ms resynchronisation window only for sources with dropped frames, gaps or a start within 100 ms of zero; a recording FrameWriter in front of every consumer checks that frames handed over are not modified afterwards")
 	evid.Checks(500, 8000)
 	for _, salt := range []int{0, 1, 2} {
 		salt := salt
@@ -353,6 +368,11 @@ func TestThroughHLS(t *testing.T) {
 				if st.stuffExistingAF > 0 || st.stuffNewAF > 0 {
 					evid.Nontrivial(evid.FP(fmt.Sprintf("hls %+v", *c)))
 				}
+				if c.ExactAudio {
+					evid.Class("hls:case-audio-stamps-sample-exact(+-2-ticks-rule)")
+				} else {
+					evid.Class("hls:case-audio-stamps-gappy-or-early(+-100ms-rule)")
+				}
 				if c.Muxer {
 					evid.Class("path:muxer->hls")
 				} else {
@@ -366,6 +386,50 @@ func TestThroughHLS(t *testing.T) {
 					evid.Sample("hls", map[string]any{"first_frames": small, "frames": len(c.Frames)})
 				}
 			})
+		})
+	}
+}
+
+// TestLongAudioHistory: sample-exact audio for minutes - 3200 AAC frames per
+// rate in quick (73 s at 44.1 kHz, 5 min at 11.025 kHz), 16000 in thorough
+// (6 min at 44.1 kHz, longer than the 262 s after which a per-frame error of
+// 0.8 tick has grown to the estimator's 100 ms window) - with tiny frames and
+// one key frame every two seconds. Every audio PES of the whole history must
+// carry the supplied stamp of its first frame to within hlsExactTicks: an
+// error that grows with the number of frames shows as a drift long before it
+// reaches 100 ms.
+func TestLongAudioHistory(t *testing.T) {
+	evid.Rule(ruleText)
+	frames := 3200
+	if evid.Thorough() {
+		frames = 16000
+	}
+	if shard, _ := evid.Shard(); shard != 0 {
+		t.Skip("runs in shard 0")
+	}
+	for i, idx := range []int{4, 7, 10, 3, 1, 12, 5} { // 44100, 22050, 11025, 48000, 88200, 7350, 32000
+		i, idx := i, idx
+		t.Run(fmt.Sprintf("%dHz", aacRates[idx]), func(t *testing.T) {
+			t.Parallel()
+			rate := uint64(aacRates[idx])
+			c := &caseSpec{HLS: true, ExactAudio: true, ASC: encodeASC(2, byte(idx), 2), Muxer: i == 1}
+			c.SPS, c.PPS = paramSet(i)
+			x := uint32(idx)*2654435761 | 1
+			rnd := func() uint32 { x ^= x << 13; x ^= x >> 17; x ^= x << 5; return x }
+			base := uint64(45000 + 7919*i) // half a second after zero, like ipchub's depacketizers
+			nextKey := base
+			for k := 0; k < frames; k++ {
+				pts := base + (uint64(k)*1024*90000+rate/2)/rate // rounded to the nearest tick
+				for nextKey <= pts {
+					c.Frames = append(c.Frames, frameSpec{Hdr: 0x65, Size: 20 + k%9, Seed: rnd(), PTS: nextKey, DTS: nextKey})
+					nextKey += 180000
+				}
+				c.Frames = append(c.Frames, frameSpec{Audio: true, Size: 1 + (k*7)%13, Seed: rnd(), PTS: pts, DTS: pts})
+			}
+			c.Frames = append(c.Frames, hlsEnding(c.Frames, rnd)...)
+			checkHLS(t, c, "long-history")
+			evid.Nontrivial(evid.FP("long-history", idx, frames))
+			evid.ClassN("hls:long-history-aac-frames", int64(frames))
 		})
 	}
 }
